@@ -3,6 +3,7 @@
 package main
 
 import (
+	"context"
 	"encoding/json"
 	"errors"
 	"fmt"
@@ -18,7 +19,9 @@ import (
 
 	"verifh/lib/hx"
 
+	"github.com/criyle/go-sandbox/container"
 	"github.com/criyle/go-sandbox/pkg/forkexec"
+	"github.com/criyle/go-sandbox/pkg/pipe"
 )
 
 func nsOf(pid string) map[string]string {
@@ -42,7 +45,46 @@ func main() {
 	}
 	scratch := os.Getenv("VERIF_SCRATCH")
 	filter := hx.AllowAll().SockFprog()
+	var cenv container.Environment
+	defer func() {
+		if cenv != nil {
+			cenv.Destroy()
+		}
+	}()
 	hx.Cases(func(c map[string]any) map[string]any {
+		if c["mode"] == "container" {
+			// one pooled container, a history of launches with different parameters: each launch starts in the state of ITS parameters
+			if cenv == nil {
+				var err error
+				if cenv, err = hx.NewEnv(scratch, nil); err != nil {
+					return map[string]any{"harness_err": err.Error()}
+				}
+			}
+			states := []any{}
+			for _, oo := range c["launches"].([]any) {
+				l := oo.(map[string]any)
+				buf, _ := pipe.NewBuffer(1 << 16)
+				null, _ := os.Open("/dev/null")
+				p := container.ExecveParam{Args: []string{"/vb/probe_target", "secstate", "/nonexistent/out"}, Env: []string{}, Files: []uintptr{null.Fd(), buf.W.Fd(), buf.W.Fd()},
+					SyncAfterExec: l["sync_after"] == true}
+				if l["seccomp"] == true {
+					p.Seccomp = hx.AllowAll()
+				}
+				if l["sync"] == true {
+					p.SyncFunc = func(int) error { return nil }
+				}
+				ctx, cancel := context.WithTimeout(context.Background(), 10*time.Second)
+				res := cenv.Execve(ctx, p)
+				cancel()
+				null.Close()
+				buf.W.Close()
+				<-buf.Done
+				var st map[string]any
+				json.Unmarshal(buf.Buffer.Bytes(), &st)
+				states = append(states, map[string]any{"status": int(res.Status), "error": res.Error, "state": st})
+			}
+			return map[string]any{"states": states}
+		}
 		outp := filepath.Join(scratch, fmt.Sprintf("state%d.json", hx.Int(c["id"])))
 		os.Remove(outp)
 		r := &forkexec.Runner{Args: []string{hx.Target(), "secstate", outp}, Env: []string{}}
